@@ -5,6 +5,7 @@ From Coq Require Import List ZArith Bool String Arith Lia.
 From Coq.Strings Require Import Byte.
 Import ListNotations.
 From Zap Require Import Base.Wire C09.Sem C09.Race C09.Deadlock C09.Facts C09.Inst C09.Orig C09.Model Gen.AccessFacts.
+From Zap Require C09.Diag.   (* printed before any obligation below can break *)
 
 Ltac bools :=
   repeat match goal with
